@@ -37,7 +37,7 @@ func (ex *Exec) modFieldHeaps(m *ModSet, structT types.Type, field string) {
 	ex.modFieldHeapsAt(m, structT, field, nil)
 }
 
-func (ex *Exec) modFieldHeapsAt(m *ModSet, structT types.Type, field string, base *types.Var) {
+func (ex *Exec) modFieldHeapsAt(m *ModSet, structT types.Type, field string, base ast.Expr) {
 	f := findField(structT, field)
 	if f == nil {
 		return
@@ -69,22 +69,39 @@ func (ex *Exec) modStructHeaps(m *ModSet, t types.Type) {
 	}
 }
 
-func (ex *Exec) modElemHeaps(m *ModSet, et types.Type) {
+func (ex *Exec) modElemHeaps(m *ModSet, et types.Type) { ex.modElemHeapsAt(m, et, nil) }
+
+func (ex *Exec) modElemHeapsAt(m *ModSet, et types.Type, base ast.Expr) {
 	for _, c := range flatten(et) {
 		name := elemHeapName(et, c)
 		markRefHolding(name, c, true)
 		m.heaps[name] = SArr(SInt, SArr(SInt, c.Sort))
+		if base != nil {
+			m.locs[name] = append(m.locs[name], base)
+		} else {
+			m.whole[name] = true
+		}
 	}
 }
 
-func (ex *Exec) modMapHeaps(m *ModSet, mt types.Type) {
+func (ex *Exec) modMapHeaps(m *ModSet, mt types.Type) { ex.modMapHeapsAt(m, mt, nil) }
+
+func (ex *Exec) modMapHeapsAt(m *ModSet, mt types.Type, base ast.Expr) {
 	mm := mt.Underlying().(*types.Map)
 	ks := mapKeySort(mt)
-	m.heaps[mapHeapBase(mt)+"$dom"] = SArr(SInt, SArr(ks, SBool))
+	add := func(name string, s Sort) {
+		m.heaps[name] = s
+		if base != nil {
+			m.locs[name] = append(m.locs[name], base)
+		} else {
+			m.whole[name] = true
+		}
+	}
+	add(mapHeapBase(mt)+"$dom", SArr(SInt, SArr(ks, SBool)))
 	for _, c := range flatten(mm.Elem()) {
 		name := mapHeapBase(mt) + "$val" + c.Path
 		markRefHolding(name, c, true)
-		m.heaps[name] = SArr(SInt, SArr(ks, c.Sort))
+		add(name, SArr(SInt, SArr(ks, c.Sort)))
 	}
 }
 
@@ -109,14 +126,12 @@ func (ex *Exec) modLHS(m *ModSet, l ast.Expr) {
 		if !ok {
 			return
 		}
-		// direct p.f with p a pointer variable
-		if id, ok := unparen(x.X).(*ast.Ident); ok && len(sel.Index()) == 1 {
-			if o, ok := ex.P.Info.Uses[id].(*types.Var); ok {
-				if p, ok := o.Type().Underlying().(*types.Pointer); ok && !(o.Pkg() != nil && o.Parent() == o.Pkg().Scope()) {
-					if stt, ok := p.Elem().Underlying().(*types.Struct); ok {
-						ex.modFieldHeapsAt(m, p.Elem(), stt.Field(sel.Index()[0]).Name(), o)
-						return
-					}
+		// direct p.f with p a pointer-valued expression
+		if len(sel.Index()) == 1 {
+			if p, ok := ex.typeOf(x.X).Underlying().(*types.Pointer); ok {
+				if stt, ok := p.Elem().Underlying().(*types.Struct); ok {
+					ex.modFieldHeapsAt(m, p.Elem(), stt.Field(sel.Index()[0]).Name(), x.X)
+					return
 				}
 			}
 		}
@@ -158,9 +173,9 @@ func (ex *Exec) modLHS(m *ModSet, l ast.Expr) {
 		xt := ex.typeOf(x.X)
 		switch u := xt.Underlying().(type) {
 		case *types.Slice:
-			ex.modElemHeaps(m, u.Elem())
+			ex.modElemHeapsAt(m, u.Elem(), x.X)
 		case *types.Map:
-			ex.modMapHeaps(m, xt)
+			ex.modMapHeapsAt(m, xt, x.X)
 		case *types.Array:
 			ex.modLHS(m, x.X)
 		case *types.Pointer:
@@ -286,7 +301,7 @@ func (ex *Exec) modCall(m *ModSet, call *ast.CallExpr, depth int) {
 				m.alloc = true
 				ex.modStructHeaps(m, ex.typeOf(call.Args[0]))
 			case "delete":
-				ex.modMapHeaps(m, ex.typeOf(call.Args[0]))
+				ex.modMapHeapsAt(m, ex.typeOf(call.Args[0]), call.Args[0])
 			}
 			return
 		}
